@@ -39,8 +39,9 @@ type Spec struct {
 	ID       string
 	Quick    func(l *loaded) []Inst
 	Thorough func(l *loaded) []Inst
-	Solver   string   // preferred solver (default z3)
-	Covers   []string // witnesses that must be reached
+	Solver   string                                       // preferred solver (default z3)
+	Extra    func(l *loaded) (viol []string, covered int) // concrete side check (finite, no solver)
+	Covers   []string                                     // witnesses that must be reached
 	Bounds   string
 	Outside  string
 	Assume   []string
@@ -599,6 +600,17 @@ func runCheck(prop, tier string, opt options) int {
 		out = append(out, fmt.Sprintf("  %s args=%v: %s %s @ %s (x%d paths, native: %s)", g.in.Fn, g.in.Args, g.o.Kind, g.o.Detail, g.o.Site, g.n, g.conf))
 		if len(sampleViol) < 5 {
 			sampleViol = append(sampleViol, rf)
+		}
+	}
+	if spec.Extra != nil {
+		ev, n := spec.Extra(l)
+		states += n
+		for i, v := range ev {
+			violations++
+			path := filepath.Join(verifDir, "replays", prop, fmt.Sprintf("extra-%d.json", i))
+			b, _ := json.MarshalIndent(map[string]string{"property": prop, "kind": "concrete", "detail": v}, "", " ")
+			os.WriteFile(path, b, 0o644)
+			out = append(out, fmt.Sprintf("VIOLATION property=%s replay=%s", prop, path), "  "+v)
 		}
 	}
 	// vacuity
